@@ -568,3 +568,64 @@ def check_bounds(run, model, rule, floor=9):
         v = model.const_int(cname, const)
         ok = isinstance(v, int) and v > 0
         run.inst(rule, cname, '%s.%s = %s' % (cname, const, v), ok, '' if ok else 'capacity constant %s.%s is not a positive integer literal' % (cname, const), nontrivial=False)
+
+
+def check_consumer_self_stop(run, rule, re_, g, flag_p, fab_p, selfn):
+    """the consumer thread gives up (clears its own run flag) only for the stop item at the head of the queue or when the fabric was stopped - in
+    particular a wake-up that finds the queue empty (a surplus token) must leave the thread waiting"""
+    from .boolflow import values_at
+    from .util import signal_const
+    clears = [n for n in g.nodes if n.kind not in ('entry', 'exit', 'xexit', 'def') and
+              any(isinstance(c.func, ast.Attribute) and c.func.attr == 'clear' and dotted(c.func.value) == flag_p for c in n.calls())]
+    # the observations the thread makes: fabric flag, non-empty queue, stop item at the head (texts taken from the code itself)
+    watch = set()
+    k_fab = '%s.is_set()' % fab_p
+    watch.add(k_fab)
+    k_ne, k_stop = set(), set()
+    for e in [x for n in g.nodes if n.kind in ('test', 'stmt') for x in ast.walk(n.ast)]:
+        if isinstance(e, ast.Compare) and len(e.ops) == 1:
+            if any(signal_const(x) == 'STOP_ACTIVE_OBJECT_SIGNAL' for x in ast.walk(e)):
+                pos = e if isinstance(e.ops[0], (ast.Eq, ast.Is)) else ast.Compare(left=e.left, ops=[ast.Eq() if isinstance(e.ops[0], ast.NotEq) else ast.Is()], comparators=e.comparators)
+                if isinstance(e.ops[0], (ast.Eq, ast.Is, ast.NotEq, ast.IsNot)):
+                    k_stop.add(norm(pos))
+            rec, pol = is_nonempty_test(e, selfn + '.queue')
+            if rec:
+                k_ne.add((norm(e), pol))
+    watch |= k_stop | {k for k, _p in k_ne}
+    for cl in clears:
+        vals = values_at(g, cl, watch, fnode=re_.node, params=re_.params)
+        bad = []
+        for v in vals:
+            fab_off = v.get(k_fab) is False
+            stop_seen = any(v.get(k) is True for k in k_stop)
+            if not (fab_off or stop_seen):
+                bad.append(v)
+        ok = bool(vals) and not bad
+        run.inst(rule, re_, 'the thread ends itself only for the stop item or a stopped fabric', ok,
+                 '' if ok else ('the consumer thread clears its own run flag on a path where it has neither seen the stop item at the head of its queue nor found the fabric stopped '
+                                '(known on that path: %s): a wake-up that finds the queue empty - a surplus token, which racing posters produce normally - ends the thread; every later '
+                                'post is queued and never dispatched' % (bad[0] if bad else {})), node=cl.ast, obligation=True)
+    return len(clears)
+
+
+def run_event_roles(model, cg):
+    """(Func run_event, cfg, run-flag parameter, fabric-flag parameter, queue parameter, self name): the parameters are identified from the spawn site"""
+    ao = model.cls('ActiveObject')
+    re_ = ao.methods.get('run_event')
+    if re_ is None:
+        raise AnalysisError('ActiveObject.run_event not found')
+    g = cfg_of(re_)
+    spawn = [(f, c) for f, ts, c in cg.spawns if re_ in ts]
+    if len(spawn) != 1:
+        raise AnalysisError('run_event is not spawned from exactly one site')
+    sf, sc = spawn[0]
+    sargs = next((kw.value for kw in sc.keywords if kw.arg == 'args'), None)
+    if not isinstance(sargs, ast.Tuple) or len(sargs.elts) != len(re_.params) - 1:
+        raise AnalysisError('run_event spawn arguments not recognised')
+    bind = dict(zip(re_.params[1:], [dotted(a) for a in sargs.elts]))
+    flag_p = [p for p, a in bind.items() if a and a.endswith('activeobject_task_event')]
+    fab_p = [p for p, a in bind.items() if a and a.endswith('fabric_task_event')]
+    q_p = [p for p, a in bind.items() if a and a.endswith('.queue')]
+    if not (len(flag_p) == len(fab_p) == len(q_p) == 1):
+        raise AnalysisError('run_event parameters (run flag, fabric flag, queue) not identified from the spawn site: %s' % bind)
+    return re_, g, flag_p[0], fab_p[0], q_p[0], re_.params[0]
